@@ -60,6 +60,12 @@ class FrameTooLargeError(Exception):
     pass
 
 
+# HTTP/1 is protected by h11, HTTP/2 and HTTP/3 would otherwise pass
+# these through to the peer (response splitting when proxied to HTTP/1).
+_INVALID_HEADER_VALUE_BYTES = frozenset(b"\r\n\0")
+_INVALID_HEADER_NAME_BYTES = frozenset(b"\r\n\0 \t")
+
+
 def suppress_body(method: str, status_code: int) -> bool:
     return method == "HEAD" or 100 <= status_code < 200 or status_code in {204, 304}
 
@@ -68,9 +74,16 @@ def build_and_validate_headers(headers: Iterable[Tuple[bytes, bytes]]) -> List[T
     # Validates that the header name and value are bytes
     validated_headers: List[Tuple[bytes, bytes]] = []
     for name, value in headers:
+        if not isinstance(name, (bytes, bytearray)) or not isinstance(value, (bytes, bytearray)):
+            raise TypeError("Header names and values must be bytes")
         if name[0] == b":"[0]:
             raise ValueError("Pseudo headers are not valid")
-        validated_headers.append((bytes(name).strip(), bytes(value).strip()))
+        name, value = bytes(name).strip(), bytes(value).strip()
+        if _INVALID_HEADER_NAME_BYTES.intersection(name) or _INVALID_HEADER_VALUE_BYTES.intersection(
+            value
+        ):
+            raise ValueError("Header names and values must not contain CR, LF or NUL")
+        validated_headers.append((name, value))
     return validated_headers
 
 
